@@ -39,6 +39,8 @@ def site_of(status, detail):
     fn = re.sub(r'<[^<>]*>', '', fn)
     fn = re.sub(r'roots::', '', fn)
     kind = status
+    if status == 'alloc':
+        kind = 'alloc-unguarded' if 'no effective guard' in d else 'alloc'
     if 'Overflow' in d:
         kind = 'overflow'
     elif 'assert_failed' in d or 'assert:' in d:
